@@ -416,3 +416,160 @@ def write_shape_lean(shapes, paths):
     if not os.path.exists(path) or open(path).read() != text:
         with open(path, 'w') as f:
             f.write(text)
+
+
+# --------------------------------------------------------------------------------------------------------------
+# C13: memcpy-eligibility table (is_memcpyable / is_uninitialized_memcpyable / is_contiguous_iterator of the real
+# header over a grid of source/destination types) + what the compiler's static_cast does to object representations
+# --------------------------------------------------------------------------------------------------------------
+MEMCPY_HDR = r'''
+#include <gch/small_vector.hpp>
+#include <cstdio>
+#include <cstring>
+#include <cstdint>
+#include <deque>
+#include <list>
+#include <vector>
+#include <array>
+#include <iterator>
+#include <type_traits>
+struct B1 { int a; };
+struct B2 { int b; };
+struct D : B1, B2 { int c; };
+struct S1 : B1 { int d; };             // single inheritance: base at offset 0
+enum E8 : unsigned char { e8a = 0, e8b = 200 };
+enum class ES16 : short { a = 0, b = -5 };
+enum class EI : int { a = 0, b = 7 };
+enum EB : bool { ebf = false, ebt = true };
+template <typename T> struct AI : gch::detail::allocator_interface<std::allocator<T>> { };
+
+// descriptor of a type as the model sees it:  kind size signed isbool   (kind: 0 integral, 1 enum, 2 floating, 3 pointer)
+template <typename T, bool E = std::is_enum<T>::value> struct Under { typedef T type; };
+template <typename T> struct Under<T, true> { typedef typename std::underlying_type<T>::type type; };
+template <typename T> static void desc (void)
+{
+  typedef typename Under<T>::type U;
+  int kind = std::is_enum<T>::value ? 1 : std::is_floating_point<T>::value ? 2 : std::is_pointer<T>::value ? 3 : 0;
+  std::printf ("%d %zu %d %d", kind, sizeof (T), (int) std::is_signed<U>::value, (int) std::is_same<U, bool>::value);
+}
+// does static_cast<To>(x) keep the object representation, for every sample bit pattern of From?  (the ground truth)
+template <typename From, typename To, bool Conv = std::is_convertible<From, To>::value || (std::is_enum<From>::value || std::is_enum<To>::value)>
+struct Ident
+{
+  static int run (void)
+  {
+    if (sizeof (From) != sizeof (To)) return 0;
+    typedef typename Under<From>::type UF;
+    static const unsigned long long pats[] = { 0ull, 1ull, 2ull, 0x7full, 0x80ull, 0xffull, 0x100ull, 0x7fffull, 0x8000ull, 0xffffull, 0x7fffffffull, 0x80000000ull,
+                                                0xffffffffull, 0x7fffffffffffffffull, 0x8000000000000000ull, 0xffffffffffffffffull, 0x4048f5c3ull, 0x400921fb54442d18ull };
+    for (unsigned i = 0; i < sizeof (pats) / sizeof (pats[0]); ++i)
+    {
+      unsigned long long p = pats[i];
+      if (std::is_same<UF, bool>::value && p > 1) continue;       // not a valid bool
+      From f; std::memcpy (&f, &p, sizeof (From));
+      To t = static_cast<To> (f);
+      if (std::memcmp (&t, &f, sizeof (To)) != 0) return 0;
+    }
+    return 1;
+  }
+};
+template <typename From, typename To> struct Ident<From, To, false> { static int run (void) { return 0; } };
+template <typename From, typename To, bool Conv = std::is_convertible<From *, To *>::value>
+struct PtrOff { static long run (void) { static typename std::remove_cv<From>::type obj; From *p = &obj; To *q = p; return (long) ((const char *) (const void *) q - (const char *) (const void *) p); } };
+template <typename From, typename To> struct PtrOff<From, To, false> { static long run (void) { return -1; } };
+
+template <typename From, typename To> static void row (const char *fn, const char *tn)
+{
+  std::printf ("V %s %s : ", fn, tn); desc<From> (); std::printf (" : "); desc<To> ();
+  std::printf (" : %d %d %d %d %d %d : %d\n",
+    (int) AI<To>::template is_memcpyable<From>::value, (int) AI<To>::template is_memcpyable<From&>::value, (int) AI<To>::template is_memcpyable<const From&>::value,
+    (int) AI<To>::template is_uninitialized_memcpyable<To, From>::value, (int) AI<To>::template is_uninitialized_memcpyable<To, From&>::value,
+    (int) AI<To>::template is_uninitialized_memcpyable<To, const From&>::value,
+    Ident<From, To>::run ());
+}
+template <typename From, typename To> static void prow (const char *fn, const char *tn)
+{
+  typedef From *FP; typedef To *TP;
+  std::printf ("P %s %s : %d %ld : %d %d %d %d\n", fn, tn, (int) std::is_convertible<FP, TP>::value,
+    PtrOff<From, typename std::conditional<std::is_void<typename std::remove_cv<To>::type>::value, From, To>::type>::run (),
+    (int) AI<TP>::template is_memcpyable<FP>::value, (int) AI<TP>::template is_memcpyable<FP const&>::value,
+    (int) AI<TP>::template is_uninitialized_memcpyable<TP, FP>::value, (int) AI<TP>::template is_uninitialized_memcpyable<TP, FP const&>::value);
+}
+template <typename T, typename It> static void irow (const char *tn, const char *in, int truly)
+{
+  std::printf ("I %s %s : %d %d\n", tn, in, (int) AI<T>::template is_contiguous_iterator<It>::value, truly);
+}
+#define ROW(F, T) row<F, T> (#F, #T)
+#define PROW(F, T) prow<F, T> (#F, #T)
+int main ()
+{
+'''
+
+MEMCPY_VALUE_TYPES = ['bool', 'char', 'signed_char', 'unsigned_char', 'short', 'unsigned_short', 'int', 'unsigned', 'long', 'unsigned_long',
+                      'long_long', 'wchar_t', 'char16_t', 'char32_t', 'E8', 'ES16', 'EI', 'EB', 'float', 'double']
+MEMCPY_PTR_PAIRS = [('D', 'B1'), ('D', 'B2'), ('D', 'const D'), ('D', 'void'), ('D', 'const void'), ('const D', 'const void'), ('const D', 'D'),
+                    ('B2', 'const B2'), ('S1', 'B1'), ('S1', 'const B1'), ('B1', 'D'), ('int', 'void'), ('int', 'const int'), ('int', 'unsigned'), ('D', 'D'), ('B2', 'B2')]
+
+
+def memcpy_table(std='c++17', cxx='g++'):
+    cname = lambda t: t.replace('_', ' ')
+    calls = ['typedef signed char signed_char; typedef unsigned char unsigned_char; typedef unsigned short unsigned_short; '
+             'typedef unsigned long unsigned_long; typedef long long long_long;']
+    for f in MEMCPY_VALUE_TYPES:
+        for t in MEMCPY_VALUE_TYPES:
+            calls.append('ROW(%s, %s);' % (f, t))
+    for f, t in MEMCPY_PTR_PAIRS:
+        calls.append('prow<%s, %s> ("%s", "%s");' % (f, t, f.replace(' ', '_'), t.replace(' ', '_')))
+    its = [('int', 'int *', 1), ('int', 'const int *', 1), ('int', 'gch::small_vector<int, 3>::iterator', 1), ('int', 'gch::small_vector<int, 0>::const_iterator', 1),
+           ('int', 'std::list<int>::iterator', 0), ('int', 'std::deque<int>::iterator', 0), ('int', 'std::reverse_iterator<int *>', 0),
+           ('int', 'std::reverse_iterator<gch::small_vector<int, 3>::iterator>', 0), ('int', 'std::istream_iterator<int>', 0),
+           ('bool', 'std::vector<bool>::iterator', 0), ('bool', 'bool *', 1), ('long', 'gch::small_vector<int, 3>::iterator', 1)]
+    for t, it, truly in its:
+        calls.append('irow<%s, %s> ("%s", "%s", %d);' % (t, it, t, re.sub(r'\W+', '_', it).strip('_'), truly))
+    hdr = MEMCPY_HDR.replace('#include <iterator>', '#include <iterator>\n#include <istream>')
+    # the typedef line must precede main's body statements: build_table indents each call inside main
+    lines, err = build_table('memcpy_' + std.replace('+', 'p') + '_' + cxx.replace('+', 'p'), hdr, calls, cxx, std=std, shards=1)
+    if err:
+        return None, err
+    rows = dict(V=[], P=[], I=[])
+    for l in lines:
+        tag, rest = l.split(' ', 1)
+        names, *parts = [x.strip() for x in rest.split(':')]
+        rows[tag].append((names.split(), [[int(x) for x in p.split()] for p in parts]))
+    return rows, None
+
+
+def write_memcpy_lean(rows, std):
+    b = lambda x: 'true' if x else 'false'
+    out = ['-- GENERATED by tools/tables.py: memcpy-eligibility traits of the real header evaluated by the compiler (%s) — do not edit' % std,
+           'namespace SvModel.Gen\n',
+           '/-- a value type as the conversion model sees it: kind (0 integral, 1 enum, 2 floating), size in bytes,',
+           '    signedness and bool-ness of the (underlying) integral type -/',
+           'structure TyDesc where\n  kind : Nat\n  size : Nat\n  signed : Bool\n  isBool : Bool\n  deriving DecidableEq, Repr\n',
+           '/-- one (From, To) pair: the header\'s verdicts for assignment (from a prvalue / lvalue / const lvalue) and for construction,',
+           '    and whether the COMPILER\'s static_cast kept every sample object representation (ground truth) -/',
+           'structure McRow where\n  fromName : String\n  toName : String\n  from_ : TyDesc\n  to : TyDesc\n  asg : Bool\n  ctor : Bool\n  identBySamples : Bool\n  deriving Repr\n',
+           '/-- pointer pair From* → To*: implicit convertibility, the address adjustment the compiler applies (−1: not convertible),',
+           '    and the header\'s verdicts -/',
+           'structure McPtrRow where\n  fromName : String\n  toName : String\n  convertible : Bool\n  offset : Int\n  asg : Bool\n  ctor : Bool\n  deriving Repr\n',
+           '/-- iterator classification: what the header says, and whether the iterator really addresses contiguous storage -/',
+           'structure McItRow where\n  elem : String\n  iter : String\n  deemed : Bool\n  truly : Bool\n  deriving Repr\n',
+           'def mcTable : List McRow := [']
+    vr = []
+    for names, parts in rows['V']:
+        f, t, flags, ident = parts[0], parts[1], parts[2], parts[3]
+        vr.append('  ⟨"%s", "%s", ⟨%d, %d, %s, %s⟩, ⟨%d, %d, %s, %s⟩, %s, %s, %s⟩' % (
+            names[0], names[1], f[0], f[1], b(f[2]), b(f[3]), t[0], t[1], b(t[2]), b(t[3]),
+            b(flags[0] or flags[1] or flags[2]), b(flags[3] or flags[4] or flags[5]), b(ident[0])))
+    out.append(',\n'.join(vr))
+    out.append(']\n\ndef mcPtrTable : List McPtrRow := [')
+    out.append(',\n'.join('  ⟨"%s", "%s", %s, %d, %s, %s⟩' % (n[0], n[1], b(p[0][0]), p[0][1], b(p[1][0] or p[1][1]), b(p[1][2] or p[1][3])) for n, p in rows['P']))
+    out.append(']\n\ndef mcItTable : List McItRow := [')
+    out.append(',\n'.join('  ⟨"%s", "%s", %s, %s⟩' % (n[0], n[1], b(p[0][0]), b(p[0][1])) for n, p in rows['I']))
+    out.append(']\n\nend SvModel.Gen\n')
+    path = os.path.join(vlib.LEAN, 'SvModel', 'Gen', 'MemcpyTable.lean')
+    text = '\n'.join(out)
+    if not os.path.exists(path) or open(path).read() != text:
+        with open(path, 'w') as f:
+            f.write(text)
+    return len(vr)
